@@ -68,6 +68,7 @@ type TV struct {
 // frame: one activation of an SSA function body
 type frame struct {
 	fx      *fnExec
+	lastRuneValid string // range over string: whether the last element was a valid encoding
 	fparamStrong map[string]string // strong(...) of the method values passed to the call being applied
 	fn      *ssa.Function
 	c       *Contract // loop contracts (nil for inlined closures)
@@ -549,7 +550,7 @@ func (fr *frame) enterBlock(b *ssa.BasicBlock, edges []edge) *State {
 		v := fx.evalInt(lc.Decreases.E, env)
 		li.variant0 = s.define("variant", SInt, v)
 	}
-	li.hdrState = hst
+	li.hdrState = hst.clone()
 	// cover: the loop head is reachable with the invariant
 	s.cover("cover", fmt.Sprintf("loop%d", li.ordinal), []string{"vacuity"}, r, fx.posOf(b.Instrs[0].Pos()), "loop head reachable under its invariant")
 	return hst
@@ -680,6 +681,8 @@ func (fr *frame) havocLoop(li *loopInfo, st *State) {
 						written[ht+path+l.Path] = true
 					}
 				}
+			case *ssa.Next:
+				written[rangeLeaf] = true
 			case ssa.CallInstruction:
 				cc := x.Common()
 				if callee := cc.StaticCallee(); callee != nil {
@@ -749,6 +752,12 @@ func (fr *frame) havocLoop(li *loopInfo, st *State) {
 	for _, b := range blocks {
 		for _, in := range b.Instrs {
 			switch x := in.(type) {
+			case *ssa.Next:
+				if it, ok := fr.vals[x.Iter].(RangeV); ok && definedOutside(x.Iter) {
+					addTarget(rangeLeaf, SInt, it.Cell)
+				} else {
+					addTarget(rangeLeaf, SInt, "")
+				}
 			case *ssa.Store:
 				// stores into objects allocated inside the loop body need no havoc
 				if root := addrRoot(x.Addr); root != nil {
@@ -1085,6 +1094,7 @@ func (fr *frame) addEdge(from, to *ssa.BasicBlock, st *State, cond string, in ma
 		}
 		env.prevVals = saved
 		env.prevState = li.hdrState
+		env.stepFrom = from
 		for k, stp := range lc.Steps {
 			t := fx.evalBool(stp.E, env)
 			label := stp.Label
